@@ -636,8 +636,9 @@ def zspanItems : ZSpan → List SpanItem
     if t.rejected || s.rejected then [.error 400]
     else [.span ⟨t.len 16, s.len 8, tags + 1, tags + 1, size⟩]
 
+/-- a syntax error of the enclosing array (truncated body) is jx's own error, not an UnmarshalError: 500 -/
 def zipkinItems (spans : List ZSpan) (tailBad : Bool) : List SpanItem :=
-  spans.flatMap zspanItems ++ (if tailBad then [.error 400] else [])
+  spans.flatMap zspanItems ++ (if tailBad then [.error 500] else [])
 
 structure OKV where
   key : Nat        -- 0..4 = peer.service, service.name, faas.name, k8s.deployment.name, process.executable.name; other keys ≥ 5
@@ -689,7 +690,8 @@ structure RawProfile where
 /-- third-party semantics: `postDecode` allocates a missing PeriodType; `CheckValid` rejects a sample whose
     value count differs from the type count and a line without function -/
 def pprofParse (p : RawProfile) : Option RawProfile :=
-  if p.samples.all (fun s => s.values == p.types && s.locs.all (fun l => l.all id)) then
+  if (p.types == 0 && !p.samples.isEmpty) then none   -- "missing sample type information"
+  else if p.samples.all (fun s => s.values == p.types && s.locs.all (fun l => l.all id)) then
     some { p with periodType := true }
   else none
 
